@@ -10,7 +10,8 @@ class BVUnit:
 
     def __init__(self, target, contracts, props, replace=(), bodies=(), unwind=8, loop_contracts=None,
                  tier="quick", timeout=300, label=None, defines=(), extra=(), spec_prelude="", canary=None,
-                 checks=True, solver=(), kind="proof", bound=None, unwindset=(), ghost=None, note=""):
+                 checks=True, solver=(), kind="proof", bound=None, unwindset=(), ghost=None, note="", strip_restrict=False):
+        self.strip_restrict = strip_restrict
         self.target = target              # qualified C++ name of the function whose contract is enforced
         self.contracts = contracts        # {qname: contract text}; must contain target
         self.props = props                # property ids this unit contributes to
@@ -89,6 +90,9 @@ def _build_bv(tu, unit, workdir, contract_override=None):
     if contract_override is not None:
         contracts[unit.target] = contract_override
     tgt_contract = contracts.pop(unit.target)
+    if unit.strip_restrict:
+        # leaf proved under MORE alias patterns than its signature permits (restrict dropped)
+        tgt_contract = "".join(l + "\n" for l in tgt_contract.splitlines() if "/* restrict */" not in l)
     f = tu.func(unit.target)
     # replaced callees: prototype + contract; inlined: bodies
     bodies = [unit.target] + [b for b in unit.bodies if b != unit.target]
@@ -130,7 +134,10 @@ def run_bv(tu, unit, workdir):
             res["status"], res["reason"] = "undecided", "canary pattern not found in contract"
             return res
         try:
-            cfile2, wname2, repl2, _ = build_bv(tu, BVUnitClone(unit, unit.name() + "_canary"), workdir, c.replace(old, new, 1))
+            k = c.index("__CPROVER_ensures")
+            if old not in c[k:]:
+                raise ExtractionError("canary pattern not in ensures")
+            cfile2, wname2, repl2, _ = build_bv(tu, BVUnitClone(unit, unit.name() + "_canary"), workdir, c[:k] + c[k:].replace(old, new, 1))
             r2 = cbmcrun.run(cfile2, workdir, unit.name() + "_canary", "jpv_harness", enforce=wname2, replace=repl2,
                              loop_contracts=bool(unit.loop_contracts), unwind=unit.unwind, timeout=unit.timeout,
                              extra=unit.extra, defines=unit.defines, checks=False, solver=unit.solver, unwindset=unit.unwindset)
